@@ -140,7 +140,7 @@ class C11(Check):
         spec = models.gen_net(rng, n_nodes=rng.randint(2, 5), libs=('lin', 'leak', 'sat', 'osc', 'linl'), max_edges=6,
                               delays=delays, hier=rng.random() < 0.2,
                               # multi-operator nodes: the kernel's source variable is also read inside its node
-                              readouts=(0.5, 0.0) if rng.random() < 0.25 else None)
+                              readouts=(0.5, 0.0, 0.5) if rng.random() < 0.25 else None)
         return {'spec': spec, 'cfg': cfg}
 
     # ---------------------------------------------------------------------------------------------------
